@@ -68,10 +68,12 @@ def _via(prefix):
             via.add("chdir-dots")
         if c["op"] == "write":
             via.add("write")
+        if c["op"] == "setrlimit":
+            via.add("rlimit")
     return via
 
 
-def classify(sys_, call, target, exp, obs, via):
+def classify(sys_, call, target, exp, obs, via, last_main=None):
     """Names the shape of a deviating case (call + history), so that known
     findings can be keyed by it.  "" = no recognised shape."""
     op = call["op"]
@@ -99,6 +101,12 @@ def classify(sys_, call, target, exp, obs, via):
     # ... the unresolved working directory also breaks file creation below it
     if op == "open" and "chdir-dots" in via and "C" in call.get("fl", []) and e == "fd" and o == "err:ENOENT":
         return "getcwd-not-canonical"
+    if op == "dup" and e == "err:EINVAL" and o == "err:EMFILE" and "rlimit" in via:
+        return "dupfd-min-above-limit"
+    # the observation after an open(O_CREAT / O_TRUNC) that failed for lack of a descriptor
+    if target == "post" and op == "statat" and "rlimit" in via and last_main is not None \
+            and last_main["op"] == "open" and set(last_main.get("fl", [])) & {"C", "T"}:
+        return "open-emfile-side-effect"
     if "symlink" in via:
         return "after-symlink-open"
     if "opendir" in via and (target == "closed" or (exp.get("k") == obs.get("k") and exp.get("k") in ("fd", "pipe"))):
@@ -108,8 +116,11 @@ def classify(sys_, call, target, exp, obs, via):
 
 def call_key(sys_, call, target, exp, obs, prefix):
     via = _via(prefix)
+    # the call under test when `call` is one of the observation calls after it
+    main = [c for c in prefix if c["op"] not in ("statat", "getfd") and not (c["op"] == "lseek" and c.get("wh") == "CUR")]
+    last_main = main[-1] if main else None
     key = {"level": "call", "sys": sys_, "call": call["op"], "target": TARGET.get(target, target),
-           "exp": _fmt(exp), "obs": _fmt(obs), "shape": classify(sys_, call, target, exp, obs, via)}
+           "exp": _fmt(exp), "obs": _fmt(obs), "shape": classify(sys_, call, target, exp, obs, via, last_main)}
     if call["op"] == "open":
         key["access"] = {"R": "read", "W": "write", "RW": "readwrite"}.get(call.get("acc"), "?")
     return key
